@@ -556,7 +556,21 @@ def scan_gates(f, ns):
             t, fl_ = si["edges"].get(True), si["edges"].get(False)
             if t is not None and fl_ is not None:
                 gates.append({"bb": si["bb"], "true": t, "false": fl_, "cls": cls, "state": peel(ns.operand_term(c.args[0])), "call": c})
-    return gates
+    # one test fed by both classifiers (`match pass { InProgress => s.is_in_progress(), Fresh => s.is_fresh() }` folded into
+    # the scan): the pass variable selects the class
+    by_bb = {}
+    for g in gates:
+        by_bb.setdefault(g["bb"], []).append(g)
+    merged = []
+    for bb, gs in by_bb.items():
+        if len(gs) > 1 and set(g["cls"] for g in gs) == {"P", "F"} and all(same_shape(g["state"], gs[0]["state"]) for g in gs):
+            g0 = dict(gs[0])
+            g0["cls"] = "flag"
+            g0["selector_calls"] = {g["cls"]: g["call"] for g in gs}
+            merged.append(g0)
+        else:
+            merged.extend(gs)
+    return merged
 
 
 def _gate_loop(ns, g):
@@ -582,21 +596,25 @@ def gated_constructions(f, ns):
     path to the construction takes and whose classified state is the state the step is built from"""
     gates = scan_gates(f, ns)
     out = []
-    for bb, j, s in ns.assigns():
-        rv = s["rv"]
-        if bb not in ns.reachable or "agg" not in rv or not (rv["agg"].get("adt") or "").endswith("OutboundStep"):
-            continue
-        kind = rv["agg"]["variant"]
-        t = ns.rvalue_term(rv)
-        inner = peel(t[5][0]) if t[5] else None
-        fl = dict(zip(inner[4], inner[5])) if inner is not None and inner[0] == "agg" else {}
+    for sc in outq.step_constructions(f, ns):
+        kind, bb, fl = sc["kind"], sc["bb"], sc["fields"]
         found = None
         for g in gates:
-            if ns.must_pass([0], [bb], via_edges=[(g["bb"], g["true"])])[0] and "state" in fl and same_shape(peel(fl["state"]), g["state"]):
+            if ns.must_pass([0], [bb], via_edges=[(g["bb"], g["true"])])[0] and "state" in fl and _same_state(peel(fl["state"]), g["state"]):
                 found = g
                 break
-        out.append((kind, bb, s["span"], found))
+        out.append((kind, bb, sc["span"], found))
     return out
+
+
+def _same_state(a, b):
+    """two readings of `<entry>.state` denote the same entry's state (the type name recorded with the field may differ
+    when one reading goes through a copy of the entry)"""
+    if same_shape(a, b):
+        return True
+    if isinstance(a, tuple) and isinstance(b, tuple) and a[0] == "field" and b[0] == "field" and a[2] == b[2] == "state":
+        return same_shape(peel(a[1]), peel(b[1]))
+    return False
 
 
 def clause_steps_gated(R, prefix):
@@ -624,6 +642,8 @@ def _priority_flag_form(R, ns):
                 arr = (t, s["span"])
     mp_calls = ns.find_calls("matches_priority")
     if arr is None or not mp_calls:
+        if _priority_enum_flag_form(R, ns):
+            return
         R.undecide("priority/in-progress-first", "next_step is no longer coded as a loop over a literal [bool; 2]")
         return
     ok = arr[0][5][0][2] == 1 and arr[0][5][1][2] == 0
@@ -637,6 +657,52 @@ def _priority_flag_form(R, ns):
         n += 1
         R.ob("priority/flag#%d" % n, any(x[0] == "agg" and x[1] == "array" for x in walk(a)),
              "the classifier receives the pass flag of the outer loop", where=c.span)
+
+
+def _priority_enum_flag_form(R, ns):
+    """`for pass in [Pass::InProgress, Pass::Fresh]` with the classifier chosen by a `match pass`: the literal order of the
+    passes puts the variant that selects is_in_progress first, and every selection is made on the loop's pass value"""
+    f = R.f
+    gates = [g for g in scan_gates(f, ns) if g["cls"] == "flag" and g.get("selector_calls")]
+    if not gates:
+        return False
+    arr = None
+    for bb, j, s in ns.assigns():
+        rv = s["rv"]
+        if bb in ns.reachable and "agg" in rv and rv["agg"]["kind"] == "array":
+            t = ns.rvalue_term(rv)
+            if len(t[5]) == 2 and all(peel(x)[0] == "agg" and peel(x)[1] == "adt" and not peel(x)[5] for x in t[5]) \
+                    and len(set(peel(x)[2] for x in t[5])) == 1:
+                arr = ([peel(x)[3] for x in t[5]], peel(t[5][0])[2], s["span"])
+    if arr is None:
+        return False
+    order, enum, span = arr
+    ok = True
+    why = ""
+    for g in gates:
+        # the switch on the pass value that sends control to one classifier call or the other
+        mapping = {}
+        for sb in ns.switches:
+            if sb not in ns.reachable:
+                continue
+            si = ns.switch_info(sb)
+            if si["enum"] != enum:
+                continue
+            if not any(isinstance(x, tuple) and x[0] == "agg" and x[1] == "array" for x in walk(si["subject"])):
+                continue   # not the loop's pass value
+            for lab, tgt in si["edges"].items():
+                for cls, c in g["selector_calls"].items():
+                    others = [t_ for l2, t_ in si["edges"].items() if l2 != lab] + ([si["otherwise"]] if si["otherwise"] not in si["edges"].values() else [])
+                    if c.bb in ns.reach([tgt], avoid=[sb]) and not any(c.bb in ns.reach([o], avoid=[sb]) for o in others
+                                                                       if o is not None and o != tgt and ns.blocks[o]["term"]["k"] != "unreachable"):
+                        mapping[lab] = cls
+        if len(mapping) != 2 or [mapping.get(v) for v in order] != ["P", "F"]:
+            ok = False
+            why = "pass order %s selects %s" % (order, [mapping.get(v) for v in order])
+    R.ob("priority/in-progress-first", ok,
+         "next_step serves in-progress entries (first pass) before fresh ones (second pass): the literal pass order is %s%s"
+         % (order, (" — " + why) if why else ""), where=span)
+    return True
 
 
 def _priority_unrolled_form(R, ns, cons):
